@@ -336,7 +336,7 @@ def sc_grand(V, n=1, delta=1, via_setter=False):
     if d is None:
         return
     # thermal de Broglie wavelength in Angstrom: Lambda^2 * (2 pi m kB T) = h^2, m in amu, kB T in eV
-    c = 2 * np.pi * m * kB * T / _Nav * 1e-3 * _e
+    c = 2 * (shims.npw.pi if V.mode == "sym" else np.pi) * m * kB * T / _Nav * 1e-3 * _e
     if V.mode == "sym":
         # Lambda = sqrt(h^2/c) in metres, times 1e10; sqrt is "the non-negative root" (s>=0, s*s=arg)
         lam = (_hplanck**2 / c).sqrt() * 1e10
